@@ -5,12 +5,14 @@ id=$1; prop=${id:0:3}
 wt=/tmp/seed/wt_$id; out=/tmp/seed/out_$id
 log=$out/my_verify.log; : > $log
 cd $wt || exit 2
-git stash -q 2>/dev/null; git checkout -q -- . ; git clean -fdq
+git checkout -q -- . ; git clean -fdq
 if ! git apply --check $out/patch.diff 2>>$log; then echo "$id: patch does not apply" | tee -a $log; exit 2; fi
 PYTHONPATH=$wt timeout 600 /venv/bin/python $out/demo.py >>$log 2>&1; echo "demo WITHOUT patch: exit $?" >>$log
 git apply $out/patch.diff
 PYTHONPATH=$wt timeout 600 /venv/bin/python $out/demo.py >>$log 2>&1; echo "demo WITH patch: exit $?" >>$log
-(cd $wt && PYTHONPATH=$wt timeout 1800 /venv/bin/python -m pytest -q -p no:cacheprovider --timeout=900 -x 2>&1 | tail -3) >>$log 2>&1
+# timing-sensitive tests (tests/test_performance.py) fail under machine load: they are run apart, one run at a time (flock)
+(cd $wt && PYTHONPATH=$wt timeout 1800 /venv/bin/python -m pytest -q -p no:cacheprovider --timeout=900 --ignore=tests/test_performance.py 2>&1 | tail -3) >>$log 2>&1
+(cd $wt && PYTHONPATH=$wt flock /tmp/seed/perf.lock timeout 900 /venv/bin/python -m pytest -q -p no:cacheprovider --timeout=900 tests/test_performance.py 2>&1 | tail -2) >>$log 2>&1
 echo "--- check" >>$log
 # a private copy of /verif (with its build output) so that several seeds can be checked at once without sharing coq/Gen
 vc=/tmp/seed/verif_$id; rm -rf $vc; rsync -a --exclude .git --exclude replays /verif/ $vc/
